@@ -59,7 +59,9 @@ func (fr *Frame) call(in ssa.Instruction, cc *ssa.CallCommon) []Term {
 			fr.cur = fr.cur.clone()
 			fr.cur.havocAll(fmt.Sprintf("iv%d", c.n))
 		}
-		return fr.freshResults(sig)
+		res := fr.freshResults(sig)
+		fr.errConvention(sig, res)
+		return res
 	}
 	switch cv := cc.Value.(type) {
 	case *ssa.Builtin:
@@ -190,7 +192,9 @@ func (fr *Frame) callStatic(in ssa.Instruction, f *ssa.Function, args []Term) []
 	inPkg := e.funcs[key] == f
 	if !inPkg {
 		fr.x.externs[f.String()] = true
-		return fr.freshResults(f.Signature)
+		res := fr.freshResults(f.Signature)
+		fr.errConvention(f.Signature, res)
+		return res
 	}
 	// package-local helper types that are pure by declaration (logger)
 	if recv := f.Signature.Recv(); recv != nil {
@@ -324,7 +328,7 @@ func (fr *Frame) callContract(in ssa.Instruction, f *ssa.Function, ct *Contract,
 		fr.oblige("pre", "receiver of "+key+" is non-nil", in, not(eq(args[0], "0")))
 	}
 	for _, cl := range ct.Clauses {
-		if cl.Kind != "requires" && cl.Kind != "preserves" {
+		if cl.Kind != "requires" && cl.Kind != "preserves" || !fr.x.active(cl) {
 			continue
 		}
 		for _, cj := range splitConj(cl.Expr) {
@@ -341,6 +345,7 @@ func (fr *Frame) callContract(in ssa.Instruction, f *ssa.Function, ct *Contract,
 	fr.cur = pre.clone()
 	post := fr.cur
 	callee.cur = post
+	callee.frameCaller, callee.frameInstr = fr, in
 	callee.havocModifies(ct, pre, post, vars)
 	res := fr.freshResults(f.Signature)
 	rv := map[string]sval{}
@@ -358,7 +363,7 @@ func (fr *Frame) callContract(in ssa.Instruction, f *ssa.Function, ct *Contract,
 		rv["result"] = rv["r0"]
 	}
 	for _, cl := range ct.Clauses {
-		if cl.Kind != "ensures" && cl.Kind != "preserves" {
+		if cl.Kind != "ensures" && cl.Kind != "preserves" || !fr.x.active(cl) {
 			continue
 		}
 		se := callee.specEnvFor(post, pre, rv, false)
@@ -392,6 +397,9 @@ func (callee *Frame) havocModifies(ct *Contract, pre, post *State, vars map[stri
 		}
 		for _, n := range sortedKeys(ms.comps) {
 			if _, ok := compSorts[n]; ok {
+				if callee.frameCaller != nil && (n == "M" || n == "MS" || n == "MR" || n == "MB" || n == "MP") {
+					callee.frameCaller.loopFrameWholeComp(n, callee.frameInstr, "callee "+callee.fn.Name()+" (no modifies clause)")
+				}
 				post.set(n, c.fresh("hv."+shortName(n), compSorts[n]))
 			}
 		}
@@ -506,12 +514,20 @@ func (callee *Frame) havocLoc(loc *Spec, pre, post *State, vars map[string]sval)
 		}
 		post.set(li.comp, c.define("hv", es, app("store", arr, li.ref, nv)))
 	case "region":
+		if callee.frameCaller != nil {
+			for _, comp := range memAll {
+				callee.frameCaller.loopFrameWholeComp(comp, callee.frameInstr, "callee "+callee.fn.Name())
+			}
+		}
 		for _, comp := range memAll {
 			m := post.get(comp)
 			na := c.fresh("hv."+comp, elemOfArraySort(compSorts[comp]))
 			post.set(comp, c.define("hv", compSorts[comp], app("store", m, li.reg, na)))
 		}
 	case "range":
+		if callee.frameCaller != nil {
+			callee.frameCaller.checkLoopFrameRange(li.comp, li.reg, li.lo, li.hi, callee.frameInstr)
+		}
 		m := post.get(li.comp)
 		old := app("select", m, li.reg)
 		es := elemOfArraySort(compSorts[li.comp])
@@ -749,6 +765,7 @@ func (fr *Frame) builtin(in ssa.Instruction, b *ssa.Builtin, cc *ssa.CallCommon)
 // copyRange: region dreg[doff .. doff+n) := old sreg[soff .. soff+n)
 func (fr *Frame) copyRange(comp string, dreg, doff, sreg, soff, n Term) {
 	c := fr.c()
+	fr.checkLoopFrameRange(comp, dreg, doff, add(doff, n), fr.curInstr)
 	m := fr.cur.get(comp)
 	es := elemOfArraySort(compSorts[comp])
 	na := c.fresh("cp."+comp, es)
@@ -789,6 +806,7 @@ func (fr *Frame) appendBuiltin(in ssa.Instruction, cc *ssa.CallCommon) Term {
 		return res
 	}
 	// contents: in place -> copy into old region after len; realloc -> new region = old prefix ++ src
+	fr.checkLoopFrameRange(comp, ite(fits, app("s-reg", s), freshReg), ite(fits, add(app("s-off", s), app("s-len", s)), "0"), ite(fits, add(app("s-off", s), newLen), newLen), in)
 	m := fr.cur.get(comp)
 	es := elemOfArraySort(compSorts[comp])
 	na := c.fresh("app."+comp, es)
@@ -838,4 +856,23 @@ func (x *Exec) opaque(method string) bool {
 		}
 	}
 	return false
+}
+
+// errConvention: assumed for external functions returning (..., error): when the error is nil the
+// pointer / interface results are non-nil (Go convention; listed with the external in the evidence).
+func (fr *Frame) errConvention(sig *types.Signature, res []Term) {
+	n := sig.Results().Len()
+	if n < 2 || !types.Identical(sig.Results().At(n-1).Type(), types.Universe.Lookup("error").Type()) {
+		return
+	}
+	for i := 0; i < n-1; i++ {
+		t := sig.Results().At(i).Type()
+		if sortOf(t) != "Int" {
+			continue
+		}
+		if _, _, isInt := intInfo(t); isInt {
+			continue
+		}
+		fr.c().assume(imp(eq(res[n-1], "0"), lt("0", res[i])))
+	}
 }
